@@ -16,16 +16,22 @@ func init() {
 
 // vFile is a harness file (sts.Hashed) with symbolic size / time.
 type vFile struct {
-	name string
-	size int64
-	time time.Time
-	hash string
+	name  string
+	size  int64
+	time  time.Time
+	hash  string
+	shift *time.Duration // "time passes": all file times move back by *shift
 }
 
 func (f *vFile) GetPath() string    { return "/out/" + f.name }
 func (f *vFile) GetName() string    { return f.name }
 func (f *vFile) GetSize() int64     { return f.size }
-func (f *vFile) GetTime() time.Time { return f.time }
+func (f *vFile) GetTime() time.Time {
+	if f.shift != nil {
+		return f.time.Add(-*f.shift)
+	}
+	return f.time
+}
 func (f *vFile) GetMeta() []byte    { return nil }
 func (f *vFile) GetHash() string    { return f.hash }
 
